@@ -238,7 +238,7 @@ func runC13(c *Ctx) {
 							if i == 0 {
 								return guarded
 							}
-							return s &^ guarded | free
+							return s&^guarded | free
 						}
 						return s
 					}})
@@ -416,98 +416,7 @@ func runC13(c *Ctx) {
 		c.check(okUse, "index-time.used-by-delete", du.ID, p.Pos(du.Decl.Pos()), "delete-unused compares blob ages with the time recorded in the index chunks", "PurgeDeleteUnused no longer uses the index time loaded from the index chunks")
 	}
 	// (4) chunk numbering
-	{
-		f := p.Func("pkg/core.uploader")
-		var lit *ast.FuncLit
-		if len(f.Lits) > 0 {
-			lit = f.Lits[0]
-		}
-		if lit == nil {
-			undecided("uploader no longer returns a closure")
-		}
-		lb := p.LitBody(f, lit)
-		info := f.Info()
-		var idxVar *types.Var
-		ast.Inspect(lit.Body, func(nd ast.Node) bool {
-			if call, ok := nd.(*ast.CallExpr); ok && calleeID(info, call) == "pkg/core.chunkUploader" && idxVar == nil {
-				if id, ok := ast.Unparen(call.Args[1]).(*ast.Ident); ok {
-					idxVar, _ = info.Uses[id].(*types.Var)
-				}
-			}
-			return true
-		})
-		if idxVar == nil {
-			c.fail("chunk-numbering", f.ID, p.Pos(f.Decl.Pos()), "the chunk index handed to chunkUploader is not a variable")
-		} else {
-			const stale, fresh = 1, 2
-			bad := false
-			nUp := 0
-			otherWrite := false
-			lb.run(flowSpec{entry: stale,
-				node: func(n ast.Node, s uint64) uint64 {
-					if inc, ok := n.(*ast.IncDecStmt); ok && isVar(info, inc.X, idxVar) {
-						if inc.Tok == token.INC {
-							if s&fresh != 0 {
-								bad = true // two increments without an upload skip a number (harmless) — but flag double use below only
-							}
-							return fresh
-						}
-						otherWrite = true
-					}
-					if as, ok := n.(*ast.AssignStmt); ok {
-						for _, l := range as.Lhs {
-							if isVar(info, l, idxVar) && as.Tok != token.DEFINE {
-								otherWrite = true
-							}
-						}
-					}
-					for _, call := range callsIn(n) {
-						if calleeID(info, call) == "pkg/core.chunkUploader" {
-							nUp++
-							if s&stale != 0 {
-								bad = true
-							}
-							s = stale
-						}
-					}
-					return s
-				}})
-			initOK := false
-			for _, d := range defsOfVarWithIndex(f, idxVar) {
-				if d.rhs != nil && describeExpr(f, d.rhs, 0) == "param#8.indexStart" {
-					initOK = true
-				}
-			}
-			c.check(nUp == 2 && !bad && !otherWrite && initOK, "chunk-numbering.increment-before-upload", f.ID, p.Pos(f.Decl.Pos()), "the chunk index starts at options.indexStart and is incremented exactly once before each of the "+itoa(nUp)+" upload sites; it is never decreased or reassigned",
-				"a chunk upload can run with a chunk index that was not freshly incremented (or the index is decreased/reassigned): an already uploaded chunk file is deleted and rewritten, and since its keys are already marked uploaded they end up in no chunk — delete-unused then removes blobs that committed bundles need")
-		}
-		// resume: indexStart = lastIndex
-		g := p.Func("pkg/core.PurgeBuildReverseIndex")
-		okRes := false
-		ast.Inspect(g.Decl.Body, func(nd ast.Node) bool {
-			if as, ok := nd.(*ast.AssignStmt); ok && len(as.Lhs) == 1 && strings.HasSuffix(exprString(as.Lhs[0]), ".indexStart") {
-				if strings.HasPrefix(describeExpr(g, as.Rhs[0], 0), "call:pkg/core.preloadIndexFiles(") && strings.HasSuffix(describeExpr(g, as.Rhs[0], 0), "#0") {
-					okRes = true
-				}
-			}
-			return true
-		})
-		c.check(okRes, "chunk-numbering.resume-after-last", g.ID, p.Pos(g.Decl.Pos()), "a resumed build continues after the last preloaded chunk", "a resumed build no longer starts numbering after the last preloaded chunk")
-		// copyIndexChunks tracks the max chunk number
-		h := p.Func("pkg/core.copyIndexChunks")
-		okMax := false
-		ast.Inspect(h.Decl.Body, func(nd ast.Node) bool {
-			if ifs, ok := nd.(*ast.IfStmt); ok {
-				if be, ok := ast.Unparen(ifs.Cond).(*ast.BinaryExpr); ok && be.Op == token.GTR && len(ifs.Body.List) == 1 {
-					if as, ok := ifs.Body.List[0].(*ast.AssignStmt); ok && exprString(as.Lhs[0]) == exprString(be.Y) && exprString(as.Rhs[0]) == exprString(be.X) && strings.HasPrefix(describeExpr(h, be.X, 0), "call:pkg/model.ReverseIndexChunk(") {
-						okMax = true
-					}
-				}
-			}
-			return true
-		})
-		c.check(okMax, "chunk-numbering.resume-after-last", h.ID, p.Pos(h.Decl.Pos()), "lastIndex is the maximum chunk number found", "copyIndexChunks no longer computes the maximum chunk number")
-	}
+	checkChunkNumbering(c)
 	// (7) clauses violated on today's tree (genuine defects, demonstrated in /verif/triage/c13_findings_test.go; see
 	// known_findings.json) — the rules stay armed so that a repair is recognised and a new instance is reported.
 	{
@@ -649,12 +558,12 @@ func runC13(c *Ctx) {
 			id == "pkg/model.ReverseIndexChunk" || id == "pkg/cafs.KeyFromString" || strings.HasSuffix(id, "errgroup.Group.Wait") || id == "time.Parse"
 	}
 	exceptions := map[string]string{
-		"pkg/core.bundleKeys:cafs.LeavesForHash#1":       "documented: an unreadable root blob (objects of old datamon versions) is indexed by its root only; logged as a warning",
+		"pkg/core.bundleKeys:cafs.LeavesForHash#1":         "documented: an unreadable root blob (objects of old datamon versions) is indexed by its root only; logged as a warning",
 		"pkg/core.checkAndDeleteKey:core.kvStore.Exists#1": "the (found, err) pair is tested found-first: found==true implies the lookup succeeded, the error is tested on the not-found path before anything else happens",
-		"pkg/core.scanBlob:errgroup.Group.Wait#2":        "monitor group: its only goroutine reports progress and always returns nil",
-		"pkg/core.scanContext:errgroup.Group.Wait#2":     "monitor group: its only goroutine reports progress and always returns nil",
-		"pkg/core.uploader:errgroup.Group.Wait#1":        "cancellation path: the caller's context error is returned instead",
-		"pkg/core.uploader:errgroup.Group.Wait#2":        "a chunk loader failed: the group context's error (that failure) is returned instead",
+		"pkg/core.scanBlob:errgroup.Group.Wait#2":          "monitor group: its only goroutine reports progress and always returns nil",
+		"pkg/core.scanContext:errgroup.Group.Wait#2":       "monitor group: its only goroutine reports progress and always returns nil",
+		"pkg/core.uploader:errgroup.Group.Wait#1":          "cancellation path: the caller's context error is returned instead",
+		"pkg/core.uploader:errgroup.Group.Wait#2":          "a chunk loader failed: the group context's error (that failure) is returned instead",
 	}
 	total := 0
 	for _, id := range []string{"pkg/core.PurgeBuildReverseIndex", "pkg/core.PurgeDeleteUnused", "pkg/core.scanBlob", "pkg/core.checkAndDeleteKey", "pkg/core.copyIndexChunks", "pkg/core.loadChunk",
@@ -917,9 +826,9 @@ func runC14(c *Ctx) {
 	// (d) who may delete blobs
 	{
 		allowed := map[string]string{
-			"pkg/core.checkAndDeleteKey":  "the purge scan, guarded (C13)",
-			"pkg/cafs.defaultFs.Delete":   "explicit cafs Delete of one object",
-			"pkg/cafs.defaultFs.Clear":    "explicit cafs Clear",
+			"pkg/core.checkAndDeleteKey": "the purge scan, guarded (C13)",
+			"pkg/cafs.defaultFs.Delete":  "explicit cafs Delete of one object",
+			"pkg/cafs.defaultFs.Clear":   "explicit cafs Clear",
 		}
 		n := 0
 		for _, method := range []string{"Delete", "Clear"} {
@@ -945,6 +854,11 @@ func runC14(c *Ctx) {
 		// positive control for a rule whose violation count is normally zero: the classifier recognises a blob-store receiver
 		ctl := describeExpr(p.Func("pkg/core.PurgeDeleteUnused"), firstCallArgRecv(p.Func("pkg/core.PurgeDeleteUnused"), "pkg/storage.Store.KeysPrefix"), 0)
 		c.check(strings.Contains(ctl, "getBlobStore("), "blob-deleters.positive-control", "pkg/core.PurgeDeleteUnused", "-", "the receiver classifier recognises the blob store ("+ctl+")", "the blob-store receiver classifier no longer recognises getBlobStore(...) receivers")
+	}
+	// exactness of the index: chunk numbering and asynchronous chunk copies (shared with C13)
+	checkChunkNumbering(c)
+	if n := checkLoopVarCapture(c, "loopvar", "pkg/core"); n < 2 {
+		c.fail("loopvar", "instances", "-", "expected at least 2 asynchronous closures inside loops in pkg/core, found "+itoa(n))
 	}
 }
 
@@ -995,4 +909,104 @@ func reachableFrom(p *Prog, from, to string, depth int) bool {
 		return found
 	}
 	return walk(from, depth)
+}
+
+
+// checkChunkNumbering is shared by several properties (the clause is necessary for each of them).
+func checkChunkNumbering(c *Ctx) {
+	p := c.P
+
+	{
+		f := p.Func("pkg/core.uploader")
+		var lit *ast.FuncLit
+		if len(f.Lits) > 0 {
+			lit = f.Lits[0]
+		}
+		if lit == nil {
+			undecided("uploader no longer returns a closure")
+		}
+		lb := p.LitBody(f, lit)
+		info := f.Info()
+		var idxVar *types.Var
+		ast.Inspect(lit.Body, func(nd ast.Node) bool {
+			if call, ok := nd.(*ast.CallExpr); ok && calleeID(info, call) == "pkg/core.chunkUploader" && idxVar == nil {
+				if id, ok := ast.Unparen(call.Args[1]).(*ast.Ident); ok {
+					idxVar, _ = info.Uses[id].(*types.Var)
+				}
+			}
+			return true
+		})
+		if idxVar == nil {
+			c.fail("chunk-numbering", f.ID, p.Pos(f.Decl.Pos()), "the chunk index handed to chunkUploader is not a variable")
+		} else {
+			const stale, fresh = 1, 2
+			bad := false
+			nUp := 0
+			otherWrite := false
+			lb.run(flowSpec{entry: stale,
+				node: func(n ast.Node, s uint64) uint64 {
+					if inc, ok := n.(*ast.IncDecStmt); ok && isVar(info, inc.X, idxVar) {
+						if inc.Tok == token.INC {
+							if s&fresh != 0 {
+								bad = true // two increments without an upload skip a number (harmless) — but flag double use below only
+							}
+							return fresh
+						}
+						otherWrite = true
+					}
+					if as, ok := n.(*ast.AssignStmt); ok {
+						for _, l := range as.Lhs {
+							if isVar(info, l, idxVar) && as.Tok != token.DEFINE {
+								otherWrite = true
+							}
+						}
+					}
+					for _, call := range callsIn(n) {
+						if calleeID(info, call) == "pkg/core.chunkUploader" {
+							nUp++
+							if s&stale != 0 {
+								bad = true
+							}
+							s = stale
+						}
+					}
+					return s
+				}})
+			initOK := false
+			for _, d := range defsOfVarWithIndex(f, idxVar) {
+				if d.rhs != nil && describeExpr(f, d.rhs, 0) == "param#8.indexStart" {
+					initOK = true
+				}
+			}
+			c.check(nUp == 2 && !bad && !otherWrite && initOK, "chunk-numbering.increment-before-upload", f.ID, p.Pos(f.Decl.Pos()), "the chunk index starts at options.indexStart and is incremented exactly once before each of the "+itoa(nUp)+" upload sites; it is never decreased or reassigned",
+				"a chunk upload can run with a chunk index that was not freshly incremented (or the index is decreased/reassigned): an already uploaded chunk file is deleted and rewritten, and since its keys are already marked uploaded they end up in no chunk — delete-unused then removes blobs that committed bundles need")
+		}
+		// resume: indexStart = lastIndex
+		g := p.Func("pkg/core.PurgeBuildReverseIndex")
+		okRes := false
+		ast.Inspect(g.Decl.Body, func(nd ast.Node) bool {
+			if as, ok := nd.(*ast.AssignStmt); ok && len(as.Lhs) == 1 && strings.HasSuffix(exprString(as.Lhs[0]), ".indexStart") {
+				if strings.HasPrefix(describeExpr(g, as.Rhs[0], 0), "call:pkg/core.preloadIndexFiles(") && strings.HasSuffix(describeExpr(g, as.Rhs[0], 0), "#0") {
+					okRes = true
+				}
+			}
+			return true
+		})
+		c.check(okRes, "chunk-numbering.resume-after-last", g.ID, p.Pos(g.Decl.Pos()), "a resumed build continues after the last preloaded chunk", "a resumed build no longer starts numbering after the last preloaded chunk")
+		// copyIndexChunks tracks the max chunk number
+		h := p.Func("pkg/core.copyIndexChunks")
+		okMax := false
+		ast.Inspect(h.Decl.Body, func(nd ast.Node) bool {
+			if ifs, ok := nd.(*ast.IfStmt); ok {
+				if be, ok := ast.Unparen(ifs.Cond).(*ast.BinaryExpr); ok && be.Op == token.GTR && len(ifs.Body.List) == 1 {
+					if as, ok := ifs.Body.List[0].(*ast.AssignStmt); ok && exprString(as.Lhs[0]) == exprString(be.Y) && exprString(as.Rhs[0]) == exprString(be.X) && strings.HasPrefix(describeExpr(h, be.X, 0), "call:pkg/model.ReverseIndexChunk(") {
+						okMax = true
+					}
+				}
+			}
+			return true
+		})
+		c.check(okMax, "chunk-numbering.resume-after-last", h.ID, p.Pos(h.Decl.Pos()), "lastIndex is the maximum chunk number found", "copyIndexChunks no longer computes the maximum chunk number")
+	}
+	_ = p
 }
